@@ -237,7 +237,23 @@ def make_class(rnd, i):
     kind = rnd.choice(["dataclass", "namedtuple"])
     if kind == "dataclass":
         fields = [(n, float) if j < nf - ndef else (n, float, dataclasses.field(default=float(j))) for j, n in enumerate(names)]
+        flavour = rnd.random()
+        if flavour < 0.25:
+            # a field that is not a constructor parameter, in the middle / at the end of the field list
+            pos = rnd.randint(0, len(fields))
+            fields.insert(pos, ("derived_", float, dataclasses.field(init=False, default=0.0)))
+            if pos < nf - ndef:
+                fields = [f if len(f) == 3 else (f[0], f[1], dataclasses.field(default=1.5)) if k > pos else f for k, f in enumerate(fields)]
+                ndef = sum(1 for f in fields if len(f) == 3 and f[0] != "derived_")
         cls = dataclasses.make_dataclass(f"DC{i}", fields)
+        if 0.25 <= flavour < 0.4 and nf >= 2:
+            # keyword-only field declared first: signature order differs from field order
+            kwf = names[0]
+            rest = [(n, float, dataclasses.field(default=float(j))) for j, n in enumerate(names[1:])]
+            cls = dataclasses.make_dataclass(f"DC{i}", [(kwf, float, dataclasses.field(default=9.0, kw_only=True))] + rest)
+            names = names[1:] + [kwf]
+            ndef = nf
+            return cls, names[:-1], ndef - 1, "dataclass-kwonly:" + kwf
     else:
         ns = {"__annotations__": {n: float for n in names}}
         for j, n in enumerate(names):
@@ -256,6 +272,10 @@ def ctor_case(ctx, rnd, i):
     from func_adl.ast.syntatic_sugar import resolve_syntatic_sugar
 
     cls, names, ndef, kind = make_class(rnd, i)
+    kwonly = None
+    if kind.startswith("dataclass-kwonly:"):
+        kwonly = kind.split(":")[1]
+        kind = "dataclass-kwonly"
     nf = len(names)
     npos = rnd.randint(0, nf)
     rest = names[npos:]
@@ -265,6 +285,9 @@ def ctor_case(ctx, rnd, i):
     argexprs = {n: rnd.choice([f"e.x{j}", f"e.f({j})", f"(e.y, {j})", f"e.jets.Select(lambda j: j.pt + {j})"]) for j, n in enumerate(names)}
     pos = [astx.parse_expr(argexprs[n]) for n in names[:npos]]
     kw = [(n, astx.parse_expr(argexprs[n])) for n in kws]
+    if kwonly is not None and rnd.random() < 0.6:
+        kw.append((kwonly, astx.parse_expr("e.kwonly")))
+        rnd.shuffle(kw)
     how = "well-formed"
     if mal:
         how = rnd.choice(["surplus-positional", "unknown-keyword"])
